@@ -1087,7 +1087,11 @@ func (h *hworld) Drain() {
 	h.settle()
 	for _, p := range owed {
 		if p.m.drained == 0 && p.m.state != "finished" {
-			h.bad("C01 acknowledged message lost", "%s owed on channel %s (state before the drain: see history) was never delivered during the drain; ledger state now %s, attempts %d", p.m.body, p.ch, p.m.state, p.m.attempts)
+			clause := "C01 acknowledged message lost"
+			if h.restarts > 0 {
+				clause = "C05 C01 acknowledged unfinished message lost across a graceful restart"
+			}
+			h.bad(clause, "%s owed on channel %s (state before the drain: see history) was never delivered during the drain; ledger state now %s, attempts %d", p.m.body, p.ch, p.m.state, p.m.attempts)
 		}
 	}
 	for _, cn := range h.chanNames() {
@@ -1197,6 +1201,27 @@ func (h *hworld) restart() {
 			sort.Strings(got)
 			if fmt.Sprint(got) != fmt.Sprint(h.chanNames()) {
 				h.bad("C05 channels differ after restart", "after restart %v, before %v", got, h.chanNames())
+			}
+			// conservation across the restart: what the topic still held for itself (no
+			// channel yet, or paused) is in the topic again, and every channel holds exactly
+			// its unfinished messages (nothing is in flight or deferred right after a start)
+			if int(t.Depth) != len(h.held) {
+				h.bad("C05 topic backlog not restored by the restart", "the topic held %d acknowledged message(s) of its own (%v) when shutdown was requested (paused=%v, channels %v); after the restart its depth is %d", len(h.held), h.held, h.tpaused, h.chanNames(), t.Depth)
+			}
+			for _, cs := range t.Channels {
+				lc := h.chans[cs.ChannelName]
+				if lc == nil || !lc.created {
+					continue
+				}
+				want := 0
+				for _, m := range lc.msgs {
+					if m.state == "queued" {
+						want++
+					}
+				}
+				if got := int(cs.Depth + cs.InFlightCount + cs.DeferredCount); got != want {
+					h.bad("C05 channel backlog not restored by the restart", "channel %s had %d unfinished message(s) when shutdown was requested; after the restart it holds %d", cs.ChannelName, want, got)
+				}
 			}
 		}
 	}
